@@ -317,3 +317,20 @@ def thread_body_deletes(facts, root_name, var, chain=()):
             pos = cfg.position(dels[0])
             if pos is not None and pos[0] in cfg.pdom.get(cfg.entry, ()): return True
     return False
+
+
+def finding_fn(a):
+    """the construct a known finding about an access is filed under: the call `F>G` by which the class that owns the field is entered
+    (F its outermost member function in the call chain) and left for the helper G that leads to the access; the accessing function
+    itself when there is no such call.  Moving the access into a further helper of G does not change the construct; an access
+    made anywhere else is a different one."""
+    from facts import strip_targs
+    cls = strip_targs(a.cls)
+    names = [strip_targs(x) for x in a.chain]
+    fn = strip_targs(a.fn)
+    if not names or names[-1] != fn: names.append(fn)
+    for i, nme in enumerate(names):
+        if nme.startswith(cls + '::') and '::' not in nme[len(cls) + 2:].split('(')[0]:
+            if i + 1 < len(names): return nme + '>' + names[i + 1]
+            break
+    return fn
